@@ -975,6 +975,10 @@ fn run_eventually(a: &Args, shared: &SharedReport, checks: Vec<&'static str>, wi
         });
     }
     for_each_structured(a.shard, a.nshards, |core, k| {
+        if with_limits && !th && k % 3 != 0 {
+            // quick C03 takes every third structured model (C11's quick run validates the discoveries of all of them)
+            return;
+        }
         let n = core.n();
         let orc = Oracle::new(&core);
         let masks = structured_masks(n);
@@ -1074,7 +1078,7 @@ pub fn run_c11(a: &Args, shared: &SharedReport) {
         r.rule = "every GraphModel in the stated space x 1-2 eventually-properties (all masks) with always-true filler x all strategies; oracle = search for a maximal in-boundary path avoiding the mask; exactness required where the oracle finds R forest-shaped; non-trivial = |R| >= 2".into();
         r.bounds = json!({"nodes": "<=3", "strategies": ["bfs","dfs","on_demand","simulation seeds + scripted chooser (soundness only)"], "threads": if thorough(a) {vec![1,2,3]} else {vec![1]}});
     }
-    run_eventually(a, shared, vec!["c11"], false);
+    run_eventually(a, shared, vec!["c11", "c03"], false);
     let r = shared.lock().unwrap();
     let _ = &r;
 }
